@@ -84,6 +84,7 @@ TUp == /\ IsEv("up")
               d == Decode(Ev.w)
           IN /\ CanConsume(ns2, d)
              /\ nodes' = Consumed(ns2, d)
+             /\ ReleaseTransmitted(nodes, ns2, ns2, nodes')
              /\ ghost' = IF Ev.ty = MSG_STALL
                          THEN GhostStep(ghost, nodes, ns2, IF Ev.sv = 0 THEN StallMid(nodes, n, 0) ELSE nodes,
                                         {n}, IF Ev.sv = 0 THEN {a \in DOMAIN ns2 : IsPfx(n, a)} ELSE {})
